@@ -546,6 +546,54 @@ def _norm_block(block, fn, in_loop):
                     unrolled.append(_Subst({st.target.id: e}, {}).visit(copy.deepcopy(b_)))
             block[i:i + 1] = unrolled
             continue
+        # N10 / N11 index loops: `for i in range(len(X)): a = X[i]; BODY` -> `for i, a in enumerate(X): BODY`, and
+        #   `for i in range(min(len(A), len(B))): a, b = A[i], B[i]; BODY` -> `for i, (a, b) in enumerate(zip(A, B)): BODY`
+        #   (X, A, B plain names or attribute chains that the body neither rebinds nor resizes; `i` and the element names not re-assigned)
+        if isinstance(st, ast.For) and not st.orelse and isinstance(st.target, ast.Name) and isinstance(st.iter, ast.Call) \
+                and isinstance(st.iter.func, ast.Name) and st.iter.func.id == 'range' and len(st.iter.args) == 1 and not st.iter.keywords \
+                and len(st.body) >= 1 and isinstance(st.body[0], ast.Assign) and len(st.body[0].targets) == 1:
+            iv = st.target.id
+            arg = st.iter.args[0]
+            first = st.body[0]
+
+            def _len_of(e):
+                return e.args[0] if isinstance(e, ast.Call) and isinstance(e.func, ast.Name) and e.func.id == 'len' and len(e.args) == 1 and not e.keywords else None
+            seqs = None
+            if _len_of(arg) is not None:
+                seqs = [_len_of(arg)]
+            elif isinstance(arg, ast.Call) and isinstance(arg.func, ast.Name) and arg.func.id == 'min' and len(arg.args) == 2 and not arg.keywords \
+                    and all(_len_of(a) is not None for a in arg.args):
+                seqs = [_len_of(a) for a in arg.args]
+            if seqs and all(_pure(q) and isinstance(q, (ast.Name, ast.Attribute)) for q in seqs):
+                tg, vl = first.targets[0], first.value
+                elems = None
+                if len(seqs) == 1 and isinstance(tg, ast.Name) and ast.unparse(vl) == f'{ast.unparse(seqs[0])}[{iv}]':
+                    elems = [tg]
+                elif len(seqs) == 2 and isinstance(tg, ast.Tuple) and isinstance(vl, ast.Tuple) and len(tg.elts) == 2 and len(vl.elts) == 2 \
+                        and all(isinstance(e_, ast.Name) for e_ in tg.elts) \
+                        and [ast.unparse(x) for x in vl.elts] == [f'{ast.unparse(q)}[{iv}]' for q in seqs]:
+                    elems = list(tg.elts)
+                rest = st.body[1:]
+                restm = ast.Module(body=rest, type_ignores=[])
+                seq_src = {ast.unparse(q) for q in seqs}
+                resized = any(isinstance(m, ast.Call) and isinstance(m.func, ast.Attribute) and ast.unparse(m.func.value) in seq_src
+                              and m.func.attr in ('append', 'insert', 'pop', 'remove', 'clear', 'extend', 'sort', 'reverse') for m in ast.walk(restm)) \
+                    or any(isinstance(m, (ast.Name, ast.Attribute)) and isinstance(m.ctx, (ast.Store, ast.Del)) and ast.unparse(m) in seq_src for m in ast.walk(restm)) \
+                    or any(isinstance(m, ast.Delete) for m in ast.walk(restm))
+                if elems and not resized and _stores(restm, iv) == 0 and all(_stores(restm, e_.id) == 0 for e_ in elems) \
+                        and _stores(fn, iv) == 1 and _loads(fn, iv) == _loads(ast.Module(body=st.body, type_ignores=[]), iv):
+                    src = seqs[0] if len(seqs) == 1 else ast.Call(func=ast.Name(id='zip', ctx=ast.Load()), args=list(seqs), keywords=[])
+                    elt = ast.Name(id=elems[0].id, ctx=ast.Store()) if len(elems) == 1 else \
+                        ast.Tuple(elts=[ast.Name(id=e_.id, ctx=ast.Store()) for e_ in elems], ctx=ast.Store())
+                    used = _loads(restm, iv) > 0
+                    if used:
+                        new_for = ast.For(target=ast.Tuple(elts=[ast.Name(id=iv, ctx=ast.Store()), elt], ctx=ast.Store()),
+                                          iter=ast.Call(func=ast.Name(id='enumerate', ctx=ast.Load()), args=[src], keywords=[]),
+                                          body=rest or [ast.Pass()], orelse=[], type_comment=None)
+                    else:
+                        new_for = ast.For(target=elt, iter=src, body=rest or [ast.Pass()], orelse=[], type_comment=None)
+                    block[i:i + 1] = [new_for]
+                    continue
         # N2 explicit counter: `k = 0` ; `for a in X: BODY; k += 1`  ->  `for k, a in enumerate(X): BODY`
         if isinstance(st, ast.Assign) and len(st.targets) == 1 and isinstance(st.targets[0], ast.Name) \
                 and isinstance(st.value, ast.Constant) and st.value.value == 0 and type(st.value.value) is int \
